@@ -127,6 +127,15 @@ def run(ctx):
            tuple(exps or ()) == (2, 1, 0) and tuple(lexps or ()) == (2, 1, 0) and idx_expr == ["codons[..., -(n + 1)]"]
            and ast.unparse(c.module_assign("_radix")) == "len(_NUC_ALPH)",
            "the first base of a codon is the most significant digit in both directions", tc.lineno)
+    # the caller's array of codon numbers is read, never changed: the remainder is a new array (`numbers = numbers - ..`),
+    # not an in-place update (`numbers -= ..`, `numbers[..] = ..`)
+    pnum = param_names(tc)[0]
+    inplace = [x for x in ast.walk(tc) if isinstance(x, ast.AugAssign) and isinstance(x.target, ast.Name) and x.target.id == pnum
+               and not getattr(x, "_rebind", False)]
+    inplace += [x for x in ast.walk(tc) if isinstance(x, (ast.Subscript, ast.Attribute)) and isinstance(x.ctx, ast.Store)
+                and isinstance(x.value, ast.Name) and x.value.id == pnum]
+    ctx.ob("R1.codon-input-untouched", CODON, "CodonTable._to_codon", f"{pnum} is only rebound", not inplace,
+           "decoding codon numbers must not overwrite the caller's array of numbers", tc.lineno)
     tn = c.func("CodonTable._to_number")
     ctx.ob("R1.codon-radix", CODON, "CodonTable._to_number", "np.sum(_radix_multiplier * codons, axis=-1)",
            "np.sum(_radix_multiplier * codons, axis=-1)" in ast.unparse(tn), "codon number = weighted digit sum over the last axis",
@@ -317,9 +326,23 @@ def run(ctx):
                bool(rs) and all("AlphabetError" in ast.unparse(r.exc) for r in rs),
                "invalid symbols/codes must raise AlphabetError", f.lineno)
     ae = a.func("Alphabet.encode")
+    # every lookup in the symbol dictionary happens inside a try whose KeyError handler raises AlphabetError
+    lookups = [n for n in ast.walk(ae) if isinstance(n, ast.Subscript) and isinstance(n.ctx, ast.Load)
+               and isinstance(n.value, ast.Attribute) and n.value.attr == "_symbol_dict"]
+    ctx.need(bool(lookups), "Alphabet.encode looks the symbol up in self._symbol_dict")
+
+    def translated(node):
+        for tr_ in ast.walk(ae):
+            if isinstance(tr_, ast.Try) and any(x is node for b in tr_.body for x in ast.walk(b)):
+                for h in tr_.handlers:
+                    catches = h.type is None or any(isinstance(x, ast.Name) and x.id in ("KeyError", "LookupError", "Exception") for x in ast.walk(h.type))
+                    if catches and h.body and isinstance(h.body[-1], ast.Raise) and h.body[-1].exc is not None \
+                            and "AlphabetError" in ast.unparse(h.body[-1].exc):
+                        return True
+        return False
     ctx.ob("R6.alphabet-error", ALPH, "Alphabet.encode", "KeyError -> AlphabetError",
-           any(isinstance(h, ast.ExceptHandler) and h.type is not None and "KeyError" in ast.unparse(h.type) for h in ast.walk(ae)),
-           "a missing dictionary key must be translated into AlphabetError", ae.lineno, nontrivial=False)
+           all(translated(n) for n in lookups),
+           "a missing dictionary key must be translated into AlphabetError: the lookup has to sit inside the try", ae.lineno)
     ad = a.func("Alphabet.decode")
     ctx.ob("R6.negative-code", ALPH, "Alphabet.decode", "code < 0 or code >= len",
            any(isinstance(c_, ast.Compare) and isinstance(c_.ops[0], ast.Lt) and isinstance(c_.comparators[0], ast.Constant)
@@ -443,6 +466,9 @@ def shallow_copy_mutation(ctx, rule, rels):
 
 
 MUTANTS = [
+    Mutant("codon-numbers-updated-in-place", CODON, "            numbers = numbers - digit * val\n", "            numbers -= digit * val\n", "R1.codon-input-untouched"),
+    Mutant("encode-lookup-before-try", ALPH, "        try:\n            return self._symbol_dict[symbol]\n        except KeyError:",
+           "        code = self._symbol_dict[symbol]\n        try:\n            return code\n        except KeyError:", "R6.alphabet-error", "Alphabet.encode"),
     Mutant("codon-table-shallow-copy", CODON, "        # Copy this table and replace the codon\n        new_table = copy.deepcopy(self)", "        # Copy this table and replace the codon\n        new_table = copy.copy(self)", "R5.shallow-copy-mutated"),
     Mutant("mapper-identity-reversed", ALPH, "if target_alphabet.extends(source_alphabet):", "if source_alphabet.extends(target_alphabet):", "R3.mapper-identity-condition"),
     Mutant("compl-m", TYPES, '"M": "K",', '"M": "M",', "R1.complement-iupac"),
